@@ -225,6 +225,44 @@ def dry_one(job):
         ws.rmws(w)
 
 
+def obstacle_job(job):
+    """C10 where the tree itself is in the way: the dry run announces what the real run then does."""
+    import p_cmd
+    kind, op, pos, threads = job
+    w = ws.mkws('obst')
+    try:
+        ws.write(w, 'other', scen.content([0]))
+        target = {'parent-is-file': 'conf/new.txt', 'target-is-dir': 'f', 'dangling-symlink': 'f', 'symlink-to-dir': 'f', 'parent-is-symlink-to-file': 'lnk/x'}[kind]
+        if kind == 'parent-is-file':
+            ws.write(w, 'conf', b'a regular file\n')
+        elif kind == 'target-is-dir':
+            ws.write(w, 'f/inside', b'x\n')
+        elif kind == 'dangling-symlink':
+            os.symlink('nowhere', os.path.join(w, 'f'))
+        elif kind == 'symlink-to-dir':
+            ws.write(w, 'd0/inside', b'x\n'); os.symlink('d0', os.path.join(w, 'f'))
+        else:
+            ws.write(w, 'plain', b'x\n'); os.symlink('plain', os.path.join(w, 'lnk'))
+        tn = target.encode()
+        body = {'create': b'--- /dev/null\n+++ b/' + tn + b'\n' + scen.create_hunk([1]),
+                'modify': b'--- a/' + tn + b'\n+++ b/' + tn + b'\n' + scen.hunk_text({'cell': 1, 'from': 0, 'to': 1}),
+                'delete': b'--- a/' + tn + b'\n+++ /dev/null\n' + scen.delete_hunk([0])}[op]
+        good = lambda c: b'--- a/other\n+++ b/other\n' + scen.hunk_text({'cell': 1, 'from': c, 'to': c + 1})
+        patches = [good(0), good(1)]
+        patches.insert(pos, body)
+        for i, pt in enumerate(patches, 1):
+            ws.write(w, 'patches/p%d.patch' % i, pt)
+        ws.write(w, 'series', b'p1.patch\np2.patch\np3.patch\n')
+        args = ['-a', '-q', '--threads', threads]
+        probs, pre = p_cmd.dry_prelude(w, args)
+        rc, so, se = ws.push(w, args)
+        if ws.crashed(rc):
+            probs.append(('crash', 'the real run exits with %s: %s' % (rc, se.strip()[-200:])))
+        return probs + p_cmd.dry_compare(pre, rc, se)
+    finally:
+        ws.rmws(w)
+
+
 def check_c10(prop, tier):
     res = Result(prop, tier)
     work = scratch(prop)
@@ -285,6 +323,16 @@ def check_c10(prop, tier):
         for (c, t, _, _), probs in zip(njobs, nouts):
             for cat, msg in probs:
                 res.violation(cat, msg + ' (threads %d)' % t, {'names_case': c, 'threads': t})
+        # the tree is in the way: a parent that is a regular file, a target that is a directory or a symbolic link
+        ojobs = [(k, op, pos, t) for k in ('parent-is-file', 'target-is-dir', 'dangling-symlink', 'symlink-to-dir', 'parent-is-symlink-to-file')
+                 for op in ('create', 'modify', 'delete') for pos in (0, 1, 2) for t in (1, 2)]
+        with Pool(12) as pool:
+            oouts = pool.map(obstacle_job, ojobs, chunksize=4)
+        for (k, op, pos, t), probs in zip(ojobs, oouts):
+            for cat, msg in probs:
+                res.violation(cat, msg + ' (%s, %s, patch %d of 3, threads %d)' % (k, op, pos + 1, t), {'obstacle': k, 'operation': op, 'position': pos + 1, 'threads': t})
+        res.cov['parts']['obstacles'] = {'runs': len(ojobs)}
+        res.cov['traces_validated_against_impl'] += len(ojobs)
         res.cov['parts']['other-inputs'] = {'quilt_states_and_broken_patches': len(sjobs), 'with_failing_patch_before_broken': sum(1 for j in sjobs if j[3]),
                                             'file_name_cases': len(njobs)}
         res.cov['traces_validated_against_impl'] += len(sjobs) + len(njobs)
